@@ -10,14 +10,15 @@ parsed with the tiny decoders in refdec.py, checked against the known plaintext 
 re-encoded with the extracted structure, expecting the original bits back.
 
 Prints one summary line per method; exit status 0 iff everything agreed.
-Usage: selftest.py [--seed N] [--quick] [--only lzs,lz5,lhnew,lh1,pm2,pm1,corpus] [--keep]
+Usage: selftest.py [--seed N] [--quick] [--only lzs,lz5,stored,lhnew,lh1,pm2,pm1,corpus] [--keep]
 """
 import argparse, glob, os, random, re, struct, sys, time
 
 HERE = os.path.dirname(os.path.abspath(__file__))
 sys.path.insert(0, HERE)
 
-import enc_lzs, enc_lz5, enc_lh1, enc_lhnew, enc_pm2, enc_pm1, refdec      # noqa: E402
+import enc_lzs, enc_lz5, enc_lh1, enc_lhnew, enc_pm2, enc_pm1, enc_null, refdec      # noqa: E402
+from common import greedy_parse                                              # noqa: E402
 from lhasa_run import Lhasa                                                  # noqa: E402
 
 REPO = os.environ.get("VERIF_REPO", "/repo")
@@ -95,6 +96,36 @@ def L(b):
     return ("lit", b)
 
 
+_PLAIN = []
+
+
+def plaintext():
+    if not _PLAIN:
+        with open(os.path.join(REPO, "test", "compressed", "lh0.bin"), "rb") as f:
+            _PLAIN.append(f.read())
+    return _PLAIN[0]
+
+
+def parse_text(data, min_len, max_len, max_dist, ok=None, to_cmd=None):
+    """Greedy LZ77 parse of real text into a command list for one method.  ok(distance, length,
+    out_len) filters copies the method cannot express (they become literals); to_cmd converts
+    (distance, length, out_len) into the method's copy command."""
+    out = []
+    pos = 0
+    for c in greedy_parse(data, max_dist + 1, min_len, max_len, max_dist):
+        if c[0] == "lit":
+            out.append(c)
+            pos += 1
+        else:
+            _, d, n = c
+            if ok is not None and not ok(d, n, pos):
+                out += [("lit", b) for b in data[pos:pos + n]]
+            else:
+                out.append(to_cmd(d, n, pos) if to_cmd else c)
+            pos += n
+    return out
+
+
 def C(d, n):
     return ("copy", d, n)
 
@@ -126,9 +157,25 @@ def test_larc(lh, rng, quick, mod, method):
     for i in range(40 if quick else 150):
         s.add("random %d" % i, mod, method, mod.random_cmds(rng, method, rng.randint(1, 4000),
                                                             lit_prob=rng.choice((0.1, 0.5, 0.9))))
+    text = parse_text(plaintext(), lo, hi, ring - hi - 1, to_cmd=lambda d, n, pos: C(mod.ring_pos_for_distance(pos, d), n))
+    s.expect(mod.expand(text, method) == plaintext(), "parsed text expands to itself")
+    s.add("real text, greedy parse", mod, method, text)
     big = mod.random_cmds(rng, method, 12000, lit_prob=0.3)
     s.expect(len(mod.expand(big, method)) > 65536, "big output > 64 KiB")
     s.add("big", mod, method, big)
+    return s.summary()
+
+
+# ====================================================================== stored
+
+def test_null(lh, rng):
+    s = Suite(lh, "stored")
+    for method in enc_null.METHODS:
+        for n in (0, 1, 1023, 1024, 1025, 5000):
+            s.add("%d bytes" % n, enc_null, method, enc_null.random_cmds(rng, method, n))
+        cm = enc_null.random_cmds(rng, method, 100)
+        s.add_raw("trailing bytes cut by the declared length", method, enc_null.encode(cm, method, trailing=b"xyz"),
+                  enc_null.expand(cm, method))
     return s.summary()
 
 
@@ -162,6 +209,9 @@ def test_lh1(lh, rng, quick):
         rebuilds += info.get("rebuilds", 0)
         deepest = max(deepest, info.get("max_code_len", 0))
     s.add("pad bit 1", E, m, E.random_cmds(rng, m, 100), pad_bit=1)
+    text = parse_text(plaintext(), 3, 60, 4095)
+    s.expect(E.expand(text, m) == plaintext(), "parsed text expands to itself")
+    s.add("real text, greedy parse", E, m, text)
     s.expect(deepest >= 14, "deep adaptive codes (got %d)" % deepest)
     return s.summary("tree rebuilds exercised: %d, longest code %d bits" % (rebuilds, deepest))
 
@@ -276,6 +326,10 @@ def test_lhnew(lh, rng, quick, method):
                            len_bias=rng.choice((None, 12, 60)))
         add("random %d" % k, cm, zero_run_style="mixed", skip_field="random", seed=k,
             block_sizes=_fit_blocks(rng, len(cm), [rng.randint(0, 1500) for _ in range(4)]))
+    text = parse_text(plaintext(), 3, ML, W - 1)
+    s.expect(E.expand(text, method) == plaintext(), "parsed text expands to itself")
+    for st in ("huffman", "flat", "maxlen"):
+        add("real text, greedy parse, %s" % st, text, strategy=st, block_sizes=[1000, 2000])
     # output larger than the window (ring wrap) with far copies
     need = W + W // 4 + 70000
     cm = []
@@ -400,6 +454,10 @@ def test_pm2(lh, rng, quick):
     for k in range(20 if quick else 60):
         add("random %d" % k, E.random_cmds(rng, m, n=rng.randint(1, 5000), len_cap=rng.choice((None, 12, 60))),
             rebuild="random", header_style="random", seed=k)
+    text = parse_text(plaintext(), 2, 256, 8191, ok=lambda d, n, pos: d <= E.max_distance(pos) and (n > 2 or d < 64))
+    s.expect(E.expand(text, m) == plaintext(), "parsed text expands to itself")
+    for rb in ("always", "never"):
+        add("real text, greedy parse, rebuild %s" % rb, text, rebuild=rb)
     for rb in ("always", "never", "random"):
         cm = E.random_cmds(rng, m, n=9000, lit_prob=0.4)
         s.expect(len(E.expand(cm, m)) > 70000, "big pm2 output > 64 KiB")
@@ -502,6 +560,11 @@ def test_pm1(lh, rng, quick):
                 add("P=%d copy d=%d len %d after block" % (P, cp[1], cp[2]), pre2 + [cp])
     for k in range(20 if quick else 60):
         add("random %d" % k, E.random_cmds(rng, m, n=rng.randint(1, 4000), run_bias=0.01, len_cap=rng.choice((None, 12, 60))))
+    text = parse_text(plaintext(), 2, 244, E.MAX_DIST, ok=lambda d, n, pos: n > 2 or d < 320)
+    s.expect(E.expand(text, m) == plaintext(), "parsed text expands to itself")
+    for t in E.usable_trees(text):
+        add("real text, greedy parse, tree %d" % t, text, tree=t)
+    add("real text, greedy parse, tree auto", text)
     cm = E.random_cmds(rng, m, n=6000, lit_prob=0.3)
     s.expect(len(E.expand(cm, m)) > 70000, "big pm1 output > 64 KiB")
     add("big", cm)
@@ -589,7 +652,13 @@ def _reencode(method, stream, want):
         return cm, enc_lhnew.expand(cm, method), _same_bits(stream, mine, meta["bits"]), enc_lhnew, {}
     if method == "-pm2-":
         cm, meta = refdec.decode_pm2(stream, want)
-        T = {k: {kk: vv for kk, vv in v.items() if kk in ("code", "offset")} for k, v in meta["tables"].items()}
+        T = {}
+        for k, v in meta["tables"].items():
+            T[k] = {}
+            if "code" in v:
+                T[k]["code"] = v["code"]
+            if "offset_raw" in v:
+                T[k]["offset"] = v["offset_raw"]
         o = dict(tables=T, rebuild=[k for k, f in meta["flags"].items() if f], first_bit=meta["first_bit"])
         mine = enc_pm2.encode(cm, **o)
         return cm, enc_pm2.expand(cm), _same_bits(stream, mine, meta["bits"]), enc_pm2, {}
@@ -680,6 +749,8 @@ def main():
             ok &= test_larc(lh, random.Random(a.seed + 1), a.quick, enc_lzs, "-lzs-")
         if want("lz5"):
             ok &= test_larc(lh, random.Random(a.seed + 2), a.quick, enc_lz5, "-lz5-")
+        if want("stored"):
+            ok &= test_null(lh, random.Random(a.seed))
         if want("lhnew"):
             for i, method in enumerate(enc_lhnew.METHODS):
                 ok &= test_lhnew(lh, random.Random(a.seed + 10 + i), a.quick, method)
